@@ -89,9 +89,73 @@ def surface_suite(ctx):
     return s
 
 
+# bodies that hold an effect-free binding of `_`: (source, class that owns the body or None)
+UNDERSCORE_BODIES = [
+    ("class C:\n    x = 1\n    _ = 3\n", "C"),
+    ("class C:\n    x = 1\n    _: int = 3\n", "C"),
+    ("class C:\n    x = 1\n\n    def _(self):\n        return 1\n", "C"),
+    ("class C:\n    x = 1\n\n    class _:\n        y = 2\n", "C"),
+    ("class Outer:\n    z = 0\n\n    class C:\n        x = 1\n        _ = 3\n", "C"),
+    ("class C:\n    _ = 3\n    x = 1\n", "C"),
+    ("class C:\n    def _(self):\n        return 1\n\n    x = 1\n", "C"),
+    ("_ = 3\nx = 1\n", None),
+    ("x = 1\n_ = 3\n", None),
+    ("def f():\n    _ = 3\n    return 1\n", None),
+    ("x = 1\nif x:\n    _ = 3\n    x = 2\n", None),
+    ("class C:\n    x = 1\n\n    def m(self):\n        _ = 3\n        return 1\n", None),
+]
+UNDERSCORE_PRESERVE = [[], ["_"], ["C._"], ["C"], ["D._"], ["C.x", "Outer.C"], ["C._", "_"], ["Outer._"]]
+UNDERSCORE_TAILS = ["", "print(_)\n", "del _\n", "print(C)\n"]
+
+
+def binds_underscore(src):
+    import ast
+    for n in ast.walk(ast.parse(src)):
+        if isinstance(n, ast.Name) and n.id == "_" and isinstance(n.ctx, ast.Store):
+            return True
+        if isinstance(n, (ast.FunctionDef, ast.AsyncFunctionDef, ast.ClassDef)) and n.name == "_":
+            return True
+    return False
+
+
+def underscore_suite(ctx):
+    """the `_` guard of delete_pointless_statements (Preserve.keepsUnderscore) against the real rule"""
+    import ast
+    from pyrefact import fixes
+    s = Suite("underscore-guard")
+    reqs, metas = [], []
+    for body, cls in UNDERSCORE_BODIES:
+        for tail in UNDERSCORE_TAILS:
+            src = body + tail
+            read = any(isinstance(n, ast.Name) and n.id == "_" and isinstance(n.ctx, (ast.Load, ast.Del)) for n in ast.walk(ast.parse(src)))
+            for pres in UNDERSCORE_PRESERVE:
+                reqs.append({"suite": "preserve", "defs": [], "class_methods": [], "class_assigns": [], "assigns": [], "preserve": pres, "used": [], "ns": "",
+                             "imported": [], "loads": [], "attrs": [], "underscore_read": read, "cls": cls})
+                metas.append((src, pres, read, cls))
+    answers = ctx.driver.ask(reqs)
+    for (src, pres, read, cls), ans in zip(metas, answers):
+        s.cases += 1
+        try:
+            out = fixes.delete_pointless_statements(src, preserve=frozenset(pres))
+            real = binds_underscore(out)
+        except Exception as e:  # noqa: BLE001
+            s.disagreements.append({"src": src, "preserve": pres, "what": f"delete_pointless_statements raised {type(e).__name__}: {e}"})
+            continue
+        model = ans.get("keeps_underscore")
+        s.count(f"kept={real} class-body={cls is not None} read={read}")
+        if model is not real:
+            s.disagreements.append({"src": src, "preserve": pres, "model": model, "real": real, "out": out,
+                                    "what": f"the binding of _ is {'kept' if real else 'deleted'} by delete_pointless_statements, the model says {'kept' if model else 'deleted'}"})
+        elif real and not read and "_" not in pres:
+            s.nt([src, pres])
+    s.samples.append({"suite": "underscore-guard", "src": UNDERSCORE_BODIES[0][0], "preserve": ["C._"], "kept": True})
+    s.note = "12 bodies binding `_` (class attribute, annotated, method, nested class, nested class body, first statement of a class / the module, module, function, if, method body) x 4 tails (nothing / read / del / unrelated) x 8 preserve sets: whether the real delete_pointless_statements keeps the binding vs Preserve.keepsUnderscore"
+    return s
+
+
 def suites(ctx):
     common.import_pyrefact()
-    return [safeset_suite(ctx), surface_suite(ctx)]
+    return [safeset_suite(ctx), underscore_suite(ctx), surface_suite(ctx)]
 
 
 def match_known(d, known):
